@@ -593,10 +593,10 @@ def names_ok(outs, ba, prefix="SUPER_", unloc_length_order=True, only_unloc_leng
             if ent["chr"] is None:
                 return False                               # an unloc without its chromosome
             js = sorted(ent["unloc"])
-            if js != list(range(1, len(js) + 1)):
-                return False                               # _unloc_1..m without holes
-            for a in range(1, len(js)):
-                if unloc_length_order:
+            if unloc_length_order:
+                if js != list(range(1, len(js) + 1)):
+                    return False                           # _unloc_1..m without holes
+                for a in range(1, len(js)):
                     ok = AND(ok, ent["unloc"][a].length >= ent["unloc"][a + 1].length)
             if k[1] in ("", "A"):
                 totals[k[0]] = ISUM([ent["chr"].fragments_length] + [u.fragments_length for u in ent["unloc"].values()])
